@@ -212,6 +212,7 @@ def handleHist : Handler := fun inp out => do
   -- C05: the two moves-based read shapes against the journal fold, at every recorded instant
   let instants := (recs.map (·.timestamp) ++ recs.map (·.insertedAt)).eraseDups
   let keys := ((allPostings recs).map (·.srcKey) ++ (allPostings recs).map (·.dstKey)).eraseDups
+  let insMono := (recs.zip (recs.drop 1)).all fun (a, b) => a.insertedAt ≤ b.insertedAt
   let c05 := match moves? with
     | none => true
     | some ms =>
@@ -220,7 +221,8 @@ def handleHist : Handler := fun inp out => do
         [DateMode.insertion, DateMode.effective].all (fun mode =>
           movesWindowVolumes rows { pit := some t } mode k == volumesAt recs { pit := some t } mode k &&
           movesWindowVolumes rows { oot := some t } mode k == volumesAt recs { oot := some t } mode k) &&
-        (!ms.all (·.2) || effectiveVolumesAt rows k t == volumesAt recs { pit := some t } .effective k)
+        (!ms.all (·.2) || effectiveVolumesAt rows k t == volumesAt recs { pit := some t } .effective k) &&
+        (!insMono || insertionVolumesAt rows k t == volumesAt recs { pit := some t } .insertion k)
   -- C17: metadata as of every recorded instant, from the REAL history tables, against `metaAt`
   let metaInstants := instants ++ (w.ledger.events.filterMap fun e => match e with
       | .metaWrite m => some m.date | .reverted _ a => some a | _ => none)
